@@ -72,3 +72,36 @@ Proof.
   vm_compute in RA. inversion RA; subst stA. vm_compute in RB. inversion RB; subst stB.
   vm_compute in H. discriminate.
 Qed.
+
+(* ---------- any number of serial views ---------- *)
+
+(* [serial content log final n]: n+1 views one after the other, each loaded from what
+   the previous one saved; [log] = the concatenated AUTOFIX lines, [final] = the bytes at the end *)
+Inductive serial (o : opts) (file : str) : str -> list entry -> str -> nat -> Prop :=
+| serial_one content groups evs st :
+    wf_groups content groups -> Forall no_sort_event evs ->
+    view_run o file content groups evs = Ok st ->
+    serial o file content (entries_of file (s_log st)) (view_disk file content st) 0
+| serial_cons content groups evs st log final n :
+    wf_groups content groups -> Forall no_sort_event evs ->
+    view_run o file content groups evs = Ok st ->
+    entries_of file (s_log st) <> [] -> log <> [] ->
+    serial o file (view_disk file content st) log final n ->
+    serial o file content (entries_of file (s_log st) ++ log) final (S n).
+
+Theorem multi_view_serial_n o file content log final n :
+  o_autofix o = true -> serial o file content log final n ->
+  consistent_hist n content log final = true.
+Proof.
+  intros Ha S. induction S as [content groups evs st W N R|content groups evs st log final n W N R NeA NeB S IH].
+  - cbn [consistent_hist]. rewrite orb_false_r.
+    exact (disk_consistent_with_log o [] file content groups evs st Ha W N R).
+  - destruct (disk_reach o [] file content groups evs st Ha W N R) as (HsA & blocks & Re & Hflat).
+    fold (view_disk file content st) in Hflat.
+    set (la := entries_of file (s_log st)) in *.
+    cbn [consistent_hist]. apply orb_true_iff. right.
+    apply existsb_exists. exists (length la). split.
+    + apply in_seq. rewrite app_length. destruct la; [congruence|]. destruct log; [congruence|]. cbn. lia.
+    + rewrite firstn_app_exact', skipn_app_exact', HsA. cbn [negb andb].
+      apply existsb_exists. exists blocks. split; [apply reach_run_log; exact Re|]. rewrite Hflat. exact IH.
+Qed.
